@@ -112,5 +112,33 @@ PROPS['C09'] = dict(
   outside=['matrices larger than the bounds', 'add/multiply of a column onto itself (not a documented use)', 'characteristics other than 2 and 5'],
   units=_u09)
 
+# ------------------------------------------------------------------------------------------------ C05
+def _pm(src, name, col='INTRUSIVE_SET', z2=1, flavour=0, idx=0, rows=0, removable=0, vine=0, rep=0, m=4, nv=3, extra=(), tiers=('quick', 'thorough'), weight=3, must=('end',)):
+    defs = ['VP_COL=' + col, 'VP_Z2=%d' % z2, 'VP_FLAVOUR=%d' % flavour, 'VP_IDX=%d' % idx, 'VP_ROWS=%d' % rows, 'VP_REMOVABLE=%d' % removable, 'VP_VINE=%d' % vine, 'VP_REP=%d' % rep, 'VP_M=%d' % m, 'VP_NV=%d' % nv] + list(extra)
+    cf = ['-U__SSE2__'] if col == 'UNORDERED_SET' else []
+    return U(name, src, defs, tiers=tiers, weight=weight, cflags=cf, must_reach=list(must))
+_u05 = []
+_FL = ['boundary', 'ru', 'chain']
+for ci, col in enumerate(_COLS):
+    for fl in range(3):
+        if col == 'HEAP' and fl == 2: continue   # heap columns are not offered for chain matrices
+        z2 = 1 if (ci + fl) % 2 == 0 else 0
+        _u05.append(_pm('C05_matrix.cpp', 'm_%s_%s_%s' % (_FL[fl], col.lower(), 'z2' if z2 else 'z5'), col=col, z2=z2, flavour=fl, vine=0, rep=1 if fl == 1 else 0, m=4, weight=3))
+for fl in range(3):
+    for idx in (1, 2):
+        _u05.append(_pm('C05_matrix.cpp', 'm_%s_idx%d_rows_rm' % (_FL[fl], idx), flavour=fl, idx=idx, rows=1, removable=1, rep=1 if fl == 1 else 0, m=4, extra=['VP_RM=2'], weight=6, must=('end', 'removed')))
+_u05.append(_pm('C05_matrix.cpp', 'm_ru_z5_units', z2=0, flavour=1, rep=1, m=4, extra=['VP_UNITS'], weight=8))
+_u05.append(_pm('C05_matrix.cpp', 'm_chain_z5_units_rm', z2=0, flavour=2, removable=1, m=4, extra=['VP_UNITS', 'VP_RM=1'], weight=8))
+_u05.append(_pm('C05_matrix.cpp', 'm_boundary_set_rows2', col='SET', flavour=0, rows=2, m=5, weight=6))
+for ci, col in enumerate(_COLS):
+    for fl in range(3):
+        if col == 'HEAP' and fl == 2: continue
+        _u05.append(_pm('C05_matrix.cpp', 't_%s_%s_m6' % (_FL[fl], col.lower()), col=col, z2=(ci + fl + 1) % 2, flavour=fl, rep=1 if fl == 1 else 0, removable=1 if fl != 0 else 0, m=6, nv=4, extra=['VP_RM=2'] if fl != 0 else [], tiers=['thorough'], weight=30))
+PROPS['C05'] = dict(
+  explanation='Bounded symbolic execution of the real Matrix<Options> (Boundary_matrix / RU_matrix / Chain_matrix, clang IR of the headers in /repo) for a table of option sets: the filtration (which simplices, in which order; for Z_5 also a unit scaling every boundary = general cells) and the removed/re-inserted suffix are solver variables; on every path the barcode equals an independent dense reduction over the field and the exposed matrices satisfy their defining identities (R reduced with the pivots of the reduction, R/U factor the boundary matrix, pivot maps, chain columns with distinct leading cells, cycles / boundary onto partner).',
+  bounds=dict(quick='every filtered sub-complex of the triangle with m=4 cells (m=5 for one unit), all 9 column types x {boundary, RU, chain} alternating Z2/Z5, position and identifier indexing with row access and removable columns incl. remove_last of up to 2 cells and re-insertion, Z5 with arbitrary unit coefficients', thorough='m=6 cells of the tetrahedron for every column type and flavour with removals'),
+  outside=['complexes with more cells than the bound', 'characteristics other than 2 and 5', 'identifiers different from positions (covered in C06 after swaps)'],
+  units=_u05)
+
 NOT_APPLICABLE = {}
 NOTES = 'Clauses outside every claim: real thread schedules/TBB execution (engine is sequential), iostream text I/O, GMP arbitrary precision, Eigen-based Coxeter point location under general affine maps, SIMD paths of boost::unordered_flat_map (compiled with -U__SSE2__), allocation failure, inputs beyond the stated bounds.'
